@@ -173,53 +173,68 @@ Inductive pstate :=
 | S1 (name : bytes)                              (* motif set, width is None            *)
 | S2 (name : bytes) (w : nat) (rows : list (list Q)).  (* reading rows, i = length rows < w *)
 
+Definition bytes_eqb : bytes -> bytes -> bool := list_eqb Z.eqb.
+
+(* keys of the dict after `motifs[k] = ...` *)
+Definition key_add (keys : list bytes) (k : bytes) : list bytes :=
+  if existsb (fun e => bytes_eqb e k) keys then keys else keys ++ [k].
+
+(* `n_motifs is not None and len(motifs) == n_motifs` *)
+Definition full (n : option Z) (keys : list bytes) : bool :=
+  match n with Some k => Z.of_nat (length keys) =? k | None => false end.
+
 (* the loop over lines, current code: after the line has been handled,
-   `if width is not None and i == width:` commits the motif and resets the state *)
-Fixpoint parse_lines (st : pstate) (ls : list bytes) : res (list motif) :=
+   `if width is not None and i == width:` commits the motif, resets the state and breaks when
+   the dict has n_motifs keys.  [keys] = keys of the dict so far; the result lists the
+   assignments `motifs[name] = matrix` in the order they are executed. *)
+Fixpoint parse_lines (n : option Z) (keys : list bytes) (st : pstate) (ls : list bytes)
+  : res (list motif) :=
   match ls with
   | [] => Ok []
   | l :: rest =>
       match st with
-      | S0 => if prefix_eqb MOTIF l then parse_lines (S1 (name_of l)) rest
-              else parse_lines S0 rest
+      | S0 => if prefix_eqb MOTIF l then parse_lines n keys (S1 (name_of l)) rest
+              else parse_lines n keys S0 rest
       | S1 nm =>
           if prefix_eqb LETTER l then
             do w <- width_of l ;;
             if (w =? 0)%nat then
-              do ms <- parse_lines S0 rest ;; Ok ((nm, transpose4 []) :: ms)
-            else parse_lines (S2 nm w []) rest
-          else parse_lines (S1 nm) rest
+              if full n (key_add keys nm) then Ok [(nm, transpose4 [])]
+              else do ms <- parse_lines n (key_add keys nm) S0 rest ;; Ok ((nm, transpose4 []) :: ms)
+            else parse_lines n keys (S2 nm w []) rest
+          else parse_lines n keys (S1 nm) rest
       | S2 nm w rows =>
           do r <- parse_row l ;;
           let rows' := rows ++ [r] in
           if (length rows' =? w)%nat then
-            do ms <- parse_lines S0 rest ;; Ok ((nm, transpose4 rows') :: ms)
-          else parse_lines (S2 nm w rows') rest
+            if full n (key_add keys nm) then Ok [(nm, transpose4 rows')]
+            else do ms <- parse_lines n (key_add keys nm) S0 rest ;; Ok ((nm, transpose4 rows') :: ms)
+          else parse_lines n keys (S2 nm w rows') rest
       end
   end.
 
-(* pre-fix loop (commit 93dd78b..8b0266b): the motif is committed by the `else` branch, i.e.
-   only when one more line is read after the last row - and that line is consumed *)
-Fixpoint parse_lines_v0 (st : pstate) (ls : list bytes) : res (list motif) :=
+(* pre-fix loop (before f15ee24): the motif is committed by the `else` branch, i.e. only
+   when one more line is read after the last row - and that line is consumed *)
+Fixpoint parse_lines_v0 (n : option Z) (keys : list bytes) (st : pstate) (ls : list bytes)
+  : res (list motif) :=
   match ls with
   | [] => Ok []
   | l :: rest =>
       match st with
-      | S0 => if prefix_eqb MOTIF l then parse_lines_v0 (S1 (name_of l)) rest
-              else parse_lines_v0 S0 rest
+      | S0 => if prefix_eqb MOTIF l then parse_lines_v0 n keys (S1 (name_of l)) rest
+              else parse_lines_v0 n keys S0 rest
       | S1 nm =>
           if prefix_eqb LETTER l then
-            do w <- width_of l ;; parse_lines_v0 (S2 nm w []) rest
-          else parse_lines_v0 (S1 nm) rest
+            do w <- width_of l ;; parse_lines_v0 n keys (S2 nm w []) rest
+          else parse_lines_v0 n keys (S1 nm) rest
       | S2 nm w rows =>
           if (length rows <? w)%nat then
-            do r <- parse_row l ;; parse_lines_v0 (S2 nm w (rows ++ [r])) rest
+            do r <- parse_row l ;; parse_lines_v0 n keys (S2 nm w (rows ++ [r])) rest
           else
-            do ms <- parse_lines_v0 S0 rest ;; Ok ((nm, transpose4 rows) :: ms)
+            if full n (key_add keys nm) then Ok [(nm, transpose4 rows)]
+            else do ms <- parse_lines_v0 n (key_add keys nm) S0 rest ;; Ok ((nm, transpose4 rows) :: ms)
       end
   end.
-
-Definition bytes_eqb : bytes -> bytes -> bool := list_eqb Z.eqb.
 
 (* motifs[name] = value on an insertion-ordered dict *)
 Fixpoint dict_set (d : list motif) (m : motif) : list motif :=
@@ -230,42 +245,47 @@ Fixpoint dict_set (d : list motif) (m : motif) : list motif :=
 
 Definition dict_of (ms : list motif) : list motif := fold_left dict_set ms [].
 
-Definition read_meme (file : bytes) : res (list motif) :=
-  do ms <- parse_lines S0 (split_lines file) ;; Ok (dict_of ms).
+Definition read_meme (n : option Z) (file : bytes) : res (list motif) :=
+  do ms <- parse_lines n [] S0 (split_lines file) ;; Ok (dict_of ms).
 
-Definition read_meme_v0 (file : bytes) : res (list motif) :=
-  do ms <- parse_lines_v0 S0 (split_lines file) ;; Ok (dict_of ms).
+Definition read_meme_v0 (n : option Z) (file : bytes) : res (list motif) :=
+  do ms <- parse_lines_v0 n [] S0 (split_lines file) ;; Ok (dict_of ms).
 
 (* ====================================================================================== *)
 (*  Part 2: extract_loci                                                                  *)
 (* ====================================================================================== *)
 
 (* a chromosome: name (an integer id), reference bases (ASCII, any case), one value array
-   per signal track *)
-Record chrom := mkChrom { c_id : Z; c_seq : bytes; c_sig : list (list Z) }.
+   per `signals` track and one per `in_signals` track *)
+Record chrom := mkChrom { c_id : Z; c_seq : bytes; c_sig : list (list Z); c_insig : list (list Z) }.
 Record locus := mkLocus { l_chr : Z; l_start : Z; l_end : Z }.
 
 Record xcall := mkX {
   x_gen : list chrom;
-  x_sets : list (list locus);         (* one or several locus sets                  *)
-  x_chroms : option (list Z);         (* chroms=                                    *)
-  x_win : Z; x_wout : Z; x_jit : Z;   (* in_window, out_window, max_jitter          *)
-  x_nsig : nat;                       (* number of signal tracks; 0 = signals=None  *)
-  x_min : option Z; x_max : option Z; (* min_counts, max_counts                     *)
-  x_tgt : nat;                        (* target_idx                                 *)
-  x_nloci : option Z }.               (* n_loci                                     *)
+  x_sets : list (list locus);         (* one or several locus sets                       *)
+  x_chroms : option (list Z);         (* chroms=                                         *)
+  x_win : Z; x_wout : Z; x_jit : Z;   (* in_window, out_window, max_jitter               *)
+  x_nsig : nat;                       (* number of signal tracks; 0 = signals=None       *)
+  x_nin : nat;                        (* number of in_signal tracks; 0 = in_signals=None *)
+  x_min : option Z; x_max : option Z; (* 2*min_counts, 2*max_counts (thresholds may be halves) *)
+  x_tgt : nat;                        (* target_idx                                      *)
+  x_nloci : option Z;                 (* n_loci                                          *)
+  x_alpha : list Z }.                 (* alphabet (upper-case letters); every other character
+                                         of the genome is in `ignore`                    *)
 
-(* a returned example: base codes of the sequence window (0..3 = A,C,G,T one-hot row index,
-   4 = all-zero column), and one value window per signal track *)
-Definition row := (list Z * list (list Z))%type.
+(* a returned example: base codes of the sequence window (index of the one-hot row, -1 = all-
+   zero column), one value window per signal track, one per in_signal track *)
+Definition row := (list Z * list (list Z) * list (list Z))%type.
 
-(* .upper() then one_hot_encode(alphabet=ACGT, ignore=N) *)
-Definition base_code (b : Z) : Z :=
-  if (b =? 65) || (b =? 97) then 0
-  else if (b =? 67) || (b =? 99) then 1
-  else if (b =? 71) || (b =? 103) then 2
-  else if (b =? 84) || (b =? 116) then 3
-  else 4.
+Fixpoint index_of (b : Z) (l : list Z) (i : Z) : Z :=
+  match l with
+  | [] => -1
+  | a :: t => if a =? b then i else index_of b t (i + 1)
+  end.
+
+(* .upper() then one_hot_encode(alphabet, ignore) *)
+Definition base_code (alpha : list Z) (b : Z) : Z :=
+  index_of (if (97 <=? b) && (b <=? 122) then b - 32 else b) alpha 0.
 
 (* Python slice bound: negative wraps once, then clips to [0, n] *)
 Definition norm (n k : Z) : Z := Z.max 0 (Z.min n (if k <? 0 then k + n else k)).
@@ -318,10 +338,15 @@ Definition sumZ (l : list Z) : Z := fold_right Z.add 0 l.
 Definition cap_reached (n : option Z) (kept : Z) : bool :=
   match n with Some k => kept =? k | None => false end.
 
-Definition below (m : option Z) (v : Z) : bool := match m with Some k => v <? k | None => false end.
-Definition above (m : option Z) (v : Z) : bool := match m with Some k => k <? v | None => false end.
+(* thresholds are stored doubled: total < min  <->  2*total < 2*min *)
+Definition below (m : option Z) (v : Z) : bool := match m with Some k => 2 * v <? k | None => false end.
+Definition above (m : option Z) (v : Z) : bool := match m with Some k => k <? 2 * v | None => false end.
 
 Definition mid_of (l : locus) : Z := l_start l + (l_end l - l_start l) / 2.
+
+(* out_width: `if signals is None and in_signals is None: out_width = 0` *)
+Definition out_width (x : xcall) : Z :=
+  if (x_nsig x =? 0)%nat && (x_nin x =? 0)%nat then 0 else x_wout x / 2.
 
 Fixpoint loop (x : xcall) (ls : list locus) (kept : Z) : res (list row) :=
   match ls with
@@ -332,7 +357,7 @@ Fixpoint loop (x : xcall) (ls : list locus) (kept : Z) : res (list row) :=
       | Some c =>
           let j := x_jit x in
           let iw := x_win x / 2 in
-          let ow := if (x_nsig x =? 0)%nat then 0 else x_wout x / 2 in
+          let ow := out_width x in
           let mid := mid_of l in
           let s := mid - Z.max ow iw - j in
           let e := mid + Z.max ow iw + j in
@@ -347,9 +372,12 @@ Fixpoint loop (x : xcall) (ls : list locus) (kept : Z) : res (list row) :=
             if negb (x_nsig x =? 0)%nat && (below (x_min x) total || above (x_max x) total)
             then loop x rest kept
             else
-              let sq := map base_code
+              let insig := if (x_nin x =? 0)%nat then []
+                           else map (fun t => pyslice t (mid - iw - j) (mid + iw + j + x_win x mod 2))
+                                    (c_insig c) in
+              let sq := map (base_code (x_alpha x))
                             (pyslice (c_seq c) (mid - iw - j) (mid + iw + j + x_win x mod 2)) in
-              do rows <- loop x rest (kept + 1) ;; Ok ((sq, sig) :: rows)
+              do rows <- loop x rest (kept + 1) ;; Ok ((sq, sig, insig) :: rows)
       end
   end.
 
